@@ -11,7 +11,7 @@ CONSTANTS
   EqPats = {"", "x", "xy"}
   RePats = {"x", "xy", "y", ".*", ".+", ""}
   Ops = {"=", "!=", "=~", "!~"}
-  BitWidth = 8
+  BitWidth = 64
   AllowEmpty = FALSE
   AlwaysRow = FALSE
   Plan1 = 202
